@@ -33,7 +33,15 @@ template<class T, int KIND> struct QuantTr : TrBase {
   template<int K = KIND> static typename std::enable_if<K != 0, void>::type absorb_smaller(Sk&, int) {}
   static void b(Sk& s, int n) { for (int i = 0; i < 30; ++i) s.update(Gen<T>::make(100 * n + i)); absorb_smaller(s, n); }
   static void merge(Sk& s, const Sk& o) { s.merge(o); } static void merge_move(Sk& s, Sk&& o) { s.merge(std::move(o)); }
-  static std::string obs(Sk& s) { return QObj<Sk, T, KIND>::obs_of(s); }
+  // REQ keeps state that no query shows at once but that decides when the sketch compacts next (the capacity it compares its
+  // retained count with, per-level section geometry and compaction counters): part of "a move transfers the exact state"
+  template<int K = KIND> static typename std::enable_if<K == 1, std::string>::type hidden(Sk& s) {
+    std::string h = "|maxnom=" + str(s.max_nom_size_) + "|retained=" + str(s.num_retained_);
+    for (size_t l = 0; l < s.compactors_.size(); ++l) h += "|L" + str(l) + ":" + str(s.compactors_[l].state_) + "/" + str((int)s.compactors_[l].num_sections_) + "/" + str(s.compactors_[l].section_size_) + "/" + str((int)s.compactors_[l].coin_);
+    return h;
+  }
+  template<int K = KIND> static typename std::enable_if<K != 1, std::string>::type hidden(Sk&) { return std::string(); }
+  static std::string obs(Sk& s) { return QObj<Sk, T, KIND>::obs_of(s) + hidden(s); }
   static void ser(Sk& s) { s.serialize(0, typename SerdeOf<T>::type()); }
 };
 struct ThetaUpdTr : TrBase {
@@ -128,6 +136,23 @@ struct AodUpdTr : TrBase {
   static const bool has_reset = true; static void reset(Sk& s) { s.reset(); }
   static std::string obs(Sk& s) { AodObj::CA c = s.compact(true); return AodObj::obs_of(c); }
   static void ser(Sk& s) { s.compact().serialize(); }
+};
+// compact array-of-doubles sketches; merge_move feeds the source BY MOVE into a union (its entries are taken out, its summaries are
+// left moved-from), so that a later assignment to that source meets moved-from summaries
+struct AodCompactTr : TrBase {
+  typedef AodObj::AD AD; typedef AodObj::Arr Arr; typedef AodObj::CA Sk; typedef default_array_tuple_update_policy<Arr, AD> Pol; typedef update_array_tuple_sketch<Arr, Pol, AD> UA;
+  typedef array_tuple_union<Arr, default_array_tuple_union_policy<Arr>, AD> Un;
+  static std::string nm() { return "array-of-doubles-compact"; }
+  static Sk src(int arena, int n, int base) { UA u = UA::builder(Pol(2, AD(arena)), AD(arena)).set_lg_k(5).build(); Arr x(2, 0.0, AD(arena)); for (int i = 0; i < n; ++i) { x[0] = base + i; x[1] = -i; u.update((uint64_t)(base + i), x); } return u.compact(true); }
+  // all slots share ONE arena here: with equal allocators a container assignment re-uses the target's storage and assigns element
+  // by element (with unequal ones it reallocates), which is the path on which a moved-from summary is assigned to
+  static Sk* make(int) { return new Sk(src(1, 0, 0)); }
+  static void a(Sk& s, int n) { s = src(s.get_allocator().arena, 3 + n % 3, 10 * n); } static void b(Sk& s, int n) { s = src(s.get_allocator().arena, 9, 100 * n); }
+  static Un make_union(int arena) { return Un::builder(default_array_tuple_union_policy<Arr>(2), AD(arena)).set_lg_k(5).build(); }
+  static void merge(Sk& s, const Sk& o) { Un u = make_union(s.get_allocator().arena); u.update(s); u.update(o); s = u.get_result(true); }
+  static void merge_move(Sk& s, Sk&& o) { Un u = make_union(s.get_allocator().arena); u.update(s); u.update(std::move(o)); s = u.get_result(true); }
+  static std::string obs(Sk& s) { return AodObj::obs_of(s); }
+  static void ser(Sk& s) { s.serialize(); }
 };
 // HLL_4 at lg_k 4 driven by injected coupons so that the auxiliary exception map is created, survives one cur_min shift and is
 // emptied by another: slot 0 holds value 15 (an exception while cur_min is 0, an ordinary nibble once cur_min is 1), or 20
@@ -283,7 +308,7 @@ struct LifeSys {
   typedef typename Tr::Sk Sk;
   enum St { EMPTY = 0, LIVE = 1, MOVED = 2 };
   int NS, max_a, max_b;
-  struct Slot { Sk* p; int st; int na, nb; Slot(): p(nullptr), st(EMPTY), na(0), nb(0) {} };
+  struct Slot { Sk* p; int st; int na, nb; char moved_by; Slot(): p(nullptr), st(EMPTY), na(0), nb(0), moved_by('-') {} };   // moved_by: which operation left it moved-from (the residue differs: a move constructor empties containers, a merge by move leaves moved-from elements behind)
   struct State { std::vector<Slot> s; int serial; ~State() { for (size_t i = 0; i < s.size(); ++i) delete s[i].p; } };
   struct Op { char k; int i, j; std::string name; };
   std::vector<Op> ops;
@@ -320,15 +345,15 @@ struct LifeSys {
       case 'S': if (d.st != LIVE) return false; { Sk& r = *d.p; *d.p = r; } if (c) c->ok("self-assignment-keeps-state", Tr::obs(*d.p) == before[o.i], "a = a changed the object: " + Tr::obs(*d.p).substr(0, 200) + " VS " + before[o.i].substr(0, 200)); break;
       case 'c': if (d.st != EMPTY || src.st != LIVE) return false; d.p = new Sk(*src.p); d.st = LIVE; d.na = src.na; d.nb = src.nb;
         if (c) { c->ok("copy-equals-source", Tr::obs(*d.p) == before[o.j], "copy: " + Tr::obs(*d.p).substr(0, 200) + " VS source: " + before[o.j].substr(0, 200)); c->ok("copy-leaves-source-unchanged", Tr::obs(*src.p) == before[o.j], "source changed by copy construction"); } break;
-      case 'm': if (d.st != EMPTY || src.st != LIVE) return false; d.p = new Sk(std::move(*src.p)); d.st = LIVE; d.na = src.na; d.nb = src.nb; src.st = MOVED;
+      case 'm': if (d.st != EMPTY || src.st != LIVE) return false; d.p = new Sk(std::move(*src.p)); d.st = LIVE; d.na = src.na; d.nb = src.nb; src.st = MOVED; src.moved_by = 'm';
         if (c) c->ok("move-transfers-state", Tr::obs(*d.p) == before[o.j], "moved-to: " + Tr::obs(*d.p).substr(0, 200) + " VS source before: " + before[o.j].substr(0, 200)); break;
       case 'C': if (d.st == EMPTY || src.st != LIVE) return false; *d.p = *src.p; d.st = LIVE; d.na = src.na; d.nb = src.nb;
         if (c) { c->ok("copy-assign-equals-source", Tr::obs(*d.p) == before[o.j], "assigned: " + Tr::obs(*d.p).substr(0, 200) + " VS source: " + before[o.j].substr(0, 200)); c->ok("copy-assign-leaves-source-unchanged", Tr::obs(*src.p) == before[o.j], "source changed by copy assignment"); } break;
-      case 'M': if (d.st == EMPTY || src.st != LIVE) return false; *d.p = std::move(*src.p); d.st = LIVE; d.na = src.na; d.nb = src.nb; src.st = MOVED;
+      case 'M': if (d.st == EMPTY || src.st != LIVE) return false; *d.p = std::move(*src.p); d.st = LIVE; d.na = src.na; d.nb = src.nb; src.st = MOVED; src.moved_by = 'M';
         if (c) c->ok("move-assign-transfers-state", Tr::obs(*d.p) == before[o.j], "assigned: " + Tr::obs(*d.p).substr(0, 200) + " VS source before: " + before[o.j].substr(0, 200)); break;
       case 'G': if (d.st != LIVE || src.st != LIVE || d.na + src.na > max_a + 1 || d.nb + src.nb > max_b + 1) return false; Tr::merge(*d.p, *src.p); d.na += src.na; d.nb += src.nb;
         if (c) c->ok("merge-by-reference-leaves-source-unchanged", Tr::obs(*src.p) == before[o.j], "source changed by merge(const&)"); break;
-      case 'H': if (d.st != LIVE || src.st != LIVE || d.na + src.na > max_a + 1 || d.nb + src.nb > max_b + 1) return false; Tr::merge_move(*d.p, std::move(*src.p)); d.na += src.na; d.nb += src.nb; src.st = MOVED; break;
+      case 'H': if (d.st != LIVE || src.st != LIVE || d.na + src.na > max_a + 1 || d.nb + src.nb > max_b + 1) return false; Tr::merge_move(*d.p, std::move(*src.p)); d.na += src.na; d.nb += src.nb; src.st = MOVED; src.moved_by = 'H'; break;
     }
     unchanged_except(st, before, o.i, (o.k == 'm' || o.k == 'M' || o.k == 'H') ? o.j : o.i, c, "other-slots");
     if (c) {
@@ -340,7 +365,7 @@ struct LifeSys {
   std::string canon(State& st) {
     Sched sc(0, 5150);
     std::string c;
-    for (int i = 0; i < NS; ++i) { const Slot& s = st.s[i]; c += "[" + str(s.st) + "," + str(s.na) + "," + str(s.nb); if (s.st == LIVE) c += "," + Tr::obs(*s.p); c += "]"; }
+    for (int i = 0; i < NS; ++i) { const Slot& s = st.s[i]; c += "[" + str(s.st) + "," + str(s.na) + "," + str(s.nb); if (s.st == LIVE) c += "," + Tr::obs(*s.p); if (s.st == MOVED) c += std::string(",by-") + s.moved_by; c += "]"; }
     return c;
   }
   // destructive end-of-history check: all slots die, nothing may remain allocated, every item destroyed exactly once
@@ -386,6 +411,7 @@ int main(int argc, char** argv) {
   add_family<TupleItemTr>(tasks, cfg, 6, 8);
   add_family<TupleItemUnionTr>(tasks, cfg, 6, 8);
   add_family<AodUpdTr>(tasks, cfg, 6, 8);
+  add_family<AodCompactTr>(tasks, cfg, 6, 8);
   add_family<HllTr>(tasks, cfg, 6, 8);
   add_family<HllAuxTr>(tasks, cfg, 6, 8);
   add_family<HllUnionTr>(tasks, cfg, 6, 8);
